@@ -216,6 +216,19 @@ type World struct {
 	// when selected by plotNr / soilId / fcode (C11).
 	BadEnt   bool         `json:"badent,omitempty"`
 	CRLF     bool         `json:"crlf,omitempty"`
+	WxFault  *WxFault     `json:"wxfault,omitempty"`
+}
+
+// WxFault is an input fault on the weather series (C04, C11).
+//   end-early   the series ends on Day (later records absent)
+//   start-late  the series starts on Day
+//   gap         the record of Day is missing
+//   year-missing (layout 0) the file of Day's year is absent from the start
+//   delete-at   (layout 0) the file of year Year disappears when the simulation reaches Day
+type WxFault struct {
+	Kind string `json:"kind"`
+	Day  Day    `json:"day"`
+	Year int    `json:"year,omitempty"`
 }
 
 func (w *World) Start() Day { return w.Rot[0].Harvest }
